@@ -566,7 +566,8 @@ int main(int argc, char** argv)
             // worker has gone round its scheduling loop at least 2000 times since the last change
             static long base_iter[64];
             static bool have_base = false;
-            long nobusy = tm.get_thread_count(st::active) + ql;
+            // (get_queue_length counts staged descriptions too, so pending thread objects are counted instead)
+            long nobusy = tm.get_thread_count(st::active) + tm.get_thread_count(st::pending);
             if (nobusy == 0 && logsz == last_log && d == last_done)
             {
                 if (!have_base)
